@@ -1646,7 +1646,7 @@ def run(tier, seed, replay=None):
         found = {}
         runs = []
         r2 = random.Random(seed + 1)
-        nrand, ln = (20, 40) if tier == "quick" else (40, 400)
+        nrand, ln = (20, 40) if tier == "quick" else (100, 400)
         for gi, (W, real) in enumerate(zip(Ws, reals)):
             hs = one_step_histories(W, r2, real)
             hs += [gen_history(W, r2, r2.randint(max(4, ln // 4), ln), real) for _ in range(nrand)]
@@ -1763,7 +1763,9 @@ def run(tier, seed, replay=None):
                 unreproduced.append((full, W.spec["name"], "no stale value observed after the assignment"))
             continue
         if W.obj_names[leaf] not in W.leaf_ids:
-            continue                       # anonymous constant, not reachable through the registry
+            # anonymous constant (a number in the JSON): no id through which a fresh copy could be given its value
+            unreproduced.append((full, W.spec["name"], f"leaf {W.obj_names[leaf]} is an anonymous constant"))
+            continue
         upd = dict(op="set", obj=leaf, value=value_for(W, real, leaf, rng))
         if kind == "raise":
             ops = [upd]
